@@ -97,6 +97,16 @@ def check(prop, tier, seed, out):
                         "virtual TSC clock (hook); the OS-timer path shares the loop code and is not scripted"]
     out.require("conclusive_runs", out.evaluations, 50 if tier == "quick" else 500)
     out.require("distinct_nontrivial", len(out.distinct), 20)
+    if prop == "C04":
+        # end-to-end slice: time options reaching the loop through the real runner (attribute, group, CLI, DIVAN_*, builder; also
+        # a lone run-time `skip_ext_time = false`), judged on the calls each benchmark made under the scripted clock
+        from . import treecheck
+        jobs = [j for j in treecheck.make_jobs("C15", "quick", seed + 400) if j[1].intent.action == "bench"]
+        if tier == "quick":
+            jobs = jobs[:240]
+        e2e, _, _ = treecheck.run_jobs(prop, jobs, out, want={prop})
+        out.extra["end_to_end"] = e2e
+        out.require("e2e_executions", e2e.get("executions", 0), 150)
     if prop in ("C03", "C05"):
         # end-to-end slice: the same figures through the real runner (options set by attribute-equivalent entry options, groups,
         # builder, CLI and DIVAN_* variables), judged on the printed samples / iters / time cells and the invocation log
@@ -122,6 +132,9 @@ def check(prop, tier, seed, out):
 
 
 def replay(prop, rp, out):
+    if rp["first"]["replay"].get("bin") == "treedrv":
+        from . import treecheck
+        return treecheck.replay(prop, rp, out)
     cfg = rp["first"]["replay"]["cfg"]
     engine = rp["first"]["replay"].get("engine", "native")
     if engine not in ("native", "release", "asan", "tsan"):
